@@ -1,5 +1,5 @@
 // Native replay for C11 leaves against /repo (compiled with -DGUDHI_FORCE_FAKE_UINT128 so that Fake_uint128 exists).
-// usage: ripser_bits f128 <op> ah al bh bl      |  ripser_bits sparse x <dist-bits> <threshold-bits>
+// usage: ripser_bits f128 <op> ah al bh bl      |  ripser_bits sparse x <dist-bits> <threshold-bits>  |  ripser_bits lookup <j> <n> v0 d0bits ...
 #include <gudhi/uint128.h>
 #include <gudhi/ripser.h>
 #include <cmath>
@@ -36,4 +36,11 @@ int main(int argc, char** argv) {
     Gudhi::ripser::ripser_auto(std::move(fm), 1, std::numeric_limits<float>::infinity(), 2, [&](int d) { dim = d; }, [&](float b, float d) { if (dim == 1 && d > b) { if (std::isinf(d)) inf1 = true; else fin1 = true; } });
     printf("unit square, no threshold: H1 interval %s\n", inf1 ? "[1, inf)  <-- the class never dies" : fin1 ? "[1, 1.414)" : "missing");
     return (fin1 && !inf1) ? 0 : 1; }
+  if (w == "lookup") {  // ripser_bits lookup <j> <n> v0 d0bits v1 d1bits ...: vertex 0's neighbour list; query (0, j)
+    int j = atoi(argv[2]); int n = atoi(argv[3]); if (argc < 4 + 2 * n) return 3;
+    typedef Gudhi::ripser::Sparse_distance_matrix<P> SM; std::vector<std::vector<SM::vertex_diameter_t>> nbs(1);
+    float want = std::numeric_limits<float>::infinity();
+    for (int k = 0; k < n; k++) { int v = atoi(argv[4 + 2 * k]); float d = fbits(argv[5 + 2 * k]); nbs[0].emplace_back(v, d); if (v == j) want = d; }
+    SM s(std::move(nbs)); float got = s(0, j);
+    printf("neighbour list of %d entries, query vertex %d: real operator() returns %g, the stored distance is %g\n", n, j, got, want); return got == want ? 0 : 1; }
   return 3; }
